@@ -28,7 +28,7 @@ Lemma doc_layers_expanded :
       {| l_dir := c_root_dir c; l_entries := lits special |};
       {| l_dir := c_root_dir c; l_entries := c_genv c |};
       {| l_dir := c_root_dir c; l_entries := emerge (c_root c) (c_cli c) |};
-      {| l_dir := c_root_dir c; l_entries := stmts_merged false (c_os c) (c_root c) (own_chain c) |};
+      {| l_dir := c_root_dir c; l_entries := stmts_merged false false (c_os c) (c_root c) (own_chain c) |};
       {| l_dir := dir; l_entries := included_files_of (own_chain c) |};
       {| l_dir := c_root_dir c; l_entries := call |};
       {| l_dir := dir; l_entries := task |} ].
@@ -37,16 +37,23 @@ Proof. reflexivity. Qed.
 Definition flags_repaired (fl : mflags) : bool :=
   negb (fl_snapshot_parent fl) && negb (fl_merge_up fl) && negb (fl_include_eager fl).
 
+Lemma stmts_merged_lazy :
+  forall osf os ch parent, stmts_merged false osf os parent ch = stmts_merged false false os parent ch.
+Proof.
+  intros osf os ch. induction ch as [|l rest IH]; intros parent; cbn; auto.
+  rewrite IH. reflexivity.
+Qed.
+
 Lemma repaired_layers :
   forall fl c special dir call task,
     flags_repaired fl = true ->
     assemble expected_layers expected_taskdir_layers (c_os c) (ctx_of fl c special dir call task)
     = doc_layers c special dir call task.
 Proof.
-  intros [sp mu ie] c special dir call task H. unfold flags_repaired in H. cbn in H.
+  intros [sp mu ie osf] c special dir call task H. unfold flags_repaired in H. cbn in H.
   destruct sp, mu, ie; try discriminate.
   rewrite assemble_expected, doc_layers_expanded. cbn.
-  unfold case_gvars, case_incvars, case_incfile. cbn.
+  unfold case_gvars, case_incvars, case_incfile. cbn. rewrite stmts_merged_lazy.
   destruct (own_chain c); reflexivity.
 Qed.
 
@@ -130,19 +137,19 @@ Theorem snapshot_parent_refuted :
   forall sh fl, fl_snapshot_parent fl = true ->
                 model_mon sh fl witness_include = false /\ model_mon sh fl witness_cli = false.
 Proof.
-  intros sh [sp mu ie] H1. cbn in H1. subst. destruct mu, ie; split; vm_compute; reflexivity.
+  intros sh [sp mu ie osf] H1. cbn in H1. subst. destruct mu, ie, osf; split; vm_compute; reflexivity.
 Qed.
 
 Theorem merge_up_refuted :
   forall sh fl, fl_merge_up fl = true -> model_mon sh fl witness_leak = false.
 Proof.
-  intros sh [sp mu ie] H. cbn in H. subst. destruct sp, ie; vm_compute; reflexivity.
+  intros sh [sp mu ie osf] H. cbn in H. subst. destruct sp, ie, osf; vm_compute; reflexivity.
 Qed.
 
 Theorem include_eager_refuted :
   forall sh fl, fl_include_eager fl = true -> model_mon sh fl witness_eager = false.
 Proof.
-  intros sh [sp mu ie] H. cbn in H. subst. destruct sp, mu; vm_compute; reflexivity.
+  intros sh [sp mu ie osf] H. cbn in H. subst. destruct sp, mu, osf; vm_compute; reflexivity.
 Qed.
 
 (* ---------- what holds whatever the flags are ---------- *)
